@@ -226,7 +226,7 @@ impl Request {
     ) -> Result<Option<()>, crate::Response> {
         use crate::Response;
 
-        match stream.read(&mut *self.__buf__).await {
+        let read_len = match stream.read(&mut *self.__buf__).await {
             Ok (0) => return Ok(None),
             Err(e) => return match e.kind() {
                 std::io::ErrorKind::ConnectionReset => Ok(None),
@@ -235,15 +235,18 @@ impl Request {
                     Response::InternalServerError()
                 })(e))
             },
-            _ => ()
-        }
+            Ok (n) => n
+        };
 
         let mut r = Reader::new(unsafe {
             // pass detouched bytes
             // to resolve immutable/mutable borrowing
             // 
             // SAFETY: `self.__buf__` itself is immutable
-            Slice::from_bytes(&*self.__buf__).as_bytes()
+            //
+            // only the bytes actually read: what follows them in the
+            // buffer is not a part of this request
+            Slice::from_bytes(&self.__buf__[..read_len]).as_bytes()
         });
 
         match Method::from_bytes(r.read_while(|b| b != &b' ')) {
@@ -299,16 +302,11 @@ impl Request {
         remaining_buf: &[u8],
         size:          usize,
     ) -> CowSlice {
+        // `remaining_buf` is exactly the part of the payload that has been
+        // read together with the request head (any byte value, including 0)
         let remaining_buf_len = remaining_buf.len();
 
-        if remaining_buf_len == 0 || *unsafe {remaining_buf.get_unchecked(0)} == 0 {
-            #[cfg(feature="DEBUG")] println!("\n[read_payload] case: remaining_buf.is_empty() || remaining_buf[0] == 0\n");
-
-            let mut bytes = vec![0; size].into_boxed_slice();
-            stream.read_exact(&mut bytes).await.unwrap();
-            CowSlice::Own(bytes)
-
-        } else if size <= remaining_buf_len {
+        if size <= remaining_buf_len {
             #[cfg(feature="DEBUG")] println!("\n[read_payload] case: starts_at + size <= BUF_SIZE\n");
 
             #[allow(unused_unsafe/* I don't know why but rustc sometimes put warnings to this unsafe as unnecessary */)]
